@@ -32,25 +32,25 @@ theorem absent_fields_untouched (S : Schema) (total fuel : Nat) (sd : SDesc) (fs
   untouched _ S total fuel sd fs tail vs st' h j hj
 
 /-- type soundness of the decoder: what `DecodeObject` returns for a well-formed message into a typed
-    destination is a typed value of the struct — every scalar within the range of its Go kind, nil
-    flags only on empty containers, no pointer to a pointer, holder bytes only where the type declares
-    the holder, every struct at every level with exactly its schema's fields (`hasTy`).  For schemas
-    without `nocopy` fields (`S.rtSide`; a view is not a value of this typing) and messages whose bool
-    bytes are 0 / 1: the decoder copies a bool byte as it is (decodeFixedSizeTypes: "for tBOOL 1->true,
-    2->true/false"), so any other byte leaves a Go bool outside {false, true} — `bool_byte_kept` below. -/
+    destination is a typed value of the struct — every scalar within the range of its Go kind (a bool
+    is 0 or 1: the decoder stores `byte == 1`, D16), nil flags only on empty containers, no pointer to a
+    pointer, holder bytes only where the type declares the holder, every struct at every level with
+    exactly its schema's fields (`hasTy`).  For schemas without `nocopy` fields (`S.rtSide`; a view is not
+    a value of this typing). -/
 theorem decoded_value_is_typed (S : Schema) (hS : S.ok = true) (hside : S.rtSide) (sid : Nat)
     (fs : List (Nat × TVal)) (trailing : Bytes) (dest w : Val) (n : Nat)
-    (hw : wfFields fs = true) (hc : canonBoolsFields fs = true) (hd : hasTy S (.strct sid) dest = true)
+    (hw : wfFields fs = true) (hd : hasTy S (.strct sid) dest = true)
     (h : decodeM Generated.params S sid (ser (.strct fs) ++ trailing) dest = .ok (w, n)) :
     hasTy S (.strct sid) w = true := by
   rw [decodeM_refines Instances.params_valid S hS sid fs trailing _ hw] at h
   obtain ⟨w0, h0, e⟩ := mapv_ok_inv _ _ _ h
   simp only [Prod.mk.injEq] at e
   obtain ⟨rfl, _⟩ := e
-  exact readMessage_typed Generated.params S hS hside sid fs trailing.length dest _ hw hc hd h0
+  exact readMessage_typed Generated.params S hS hside sid fs trailing.length dest _ hw hd h0
 
-/-- the excluded point: a bool byte is stored unchanged, whatever it is -/
-theorem bool_byte_kept (n : Nat) : readFixed .bool (.bool n) = .ok (.sc n) := by simp [readFixed]
+/-- a bool byte is read as every Thrift reader reads it: 1 is true, anything else false -/
+theorem bool_byte_is_one_or_zero (n : Nat) :
+    readFixed .bool (.bool n) = .ok (.sc (if n = 1 then 1 else 0)) := by simp [readFixed]
 
 /-- the count checks never reject a well-formed message -/
 theorem minWire_sound : Generated.params.validMinWire = true := Instances.valid_minWire
